@@ -605,7 +605,7 @@ pub fn run(ctx: &Ctx) -> (Report, PropertyMeta) {
     report.exhaustive_parts.push(format!("every single cut and every pair of cuts (incl. inside the greeting) of {} streams x {{open, EOF}}: {} runs", medium.len(), r.evaluations));
     report.merge(r);
 
-    let n = t.pick(3000, 60_000);
+    let n = t.pick(20_000, 400_000);
     let max_exp = t.pick(17, 20);
     let r = run_random(
         ctx,
@@ -628,7 +628,7 @@ pub fn run(ctx: &Ctx) -> (Report, PropertyMeta) {
     let r = run_cases(ctx, "socket", &sc, sock_outcome);
     report.exhaustive_parts.push(format!("socket level: 7 socket types x 3 messages x (one write + every single cut within -4..+6 bytes of the READY/message boundary, with and without a separate greeting read + long READY): {} cases", sc.len()));
     report.merge(r);
-    let n = t.pick(700, 20_000);
+    let n = t.pick(6000, 200_000);
     let r = run_random(
         ctx,
         "socket",
